@@ -113,6 +113,7 @@ structure S where
   out : Option IOut := none
   slot : Option Outcome := none                   -- `self._delegate` when it is a future registered by `_set_delegate`
   handling : Option V := none                     -- the exception being handled (`sys.exc_info()`)
+  sync : Bool := false                            -- futures returned by the user functions are ALREADY DONE when returned
   fnCalls : List Val := []
   errCalls : List Exc := []
 
@@ -228,11 +229,18 @@ def valOut : V → IOut
   | .fut o => .okFut o
   | _ => .okOther
 
-def exec : Stmt → S → S × Ctl
+/-- the frame in which a call of `_delegate_resolved(delegate)` starts: parameter 0 = self, 1 = delegate (whose outcome is `o`) -/
+def S.frame (s : S) (o : Outcome) : S :=
+  { s with dOutcome := o, slot := none, handling := none, env := fun j => if j = 1 then .deleg else if j = 0 then .self else .none }
+
+/-- `cb o s`: what `delegate.add_done_callback(self._delegate_resolved)` does when the delegate (outcome `o`) is already done: it
+calls `_delegate_resolved(delegate)` at once, on this thread, inside `_set_delegate` - with `self` in whatever state the caller
+has left it at that point. -/
+def exec (cb : Outcome → S → S × Ctl) : Stmt → S → S × Ctl
   | .skip, s => (s, .normal)
   | .seq a b, s =>
-      match exec a s with
-      | (s1, .normal) => exec b s1
+      match exec cb a s with
+      | (s1, .normal) => exec cb b s1
       | r => r
   | .assign x e, s =>
       match evalE e s with
@@ -268,7 +276,12 @@ def exec : Stmt → S → S × Ctl
       match evalE e s with
       | (s1, .error x) => (s1, .raised x)
       | (s1, .ok .none) => ({ s1 with slot := none }, .normal)
-      | (s1, .ok (.fut o)) => ({ s1 with slot := some o }, .normal)
+      | (s1, .ok (.fut o)) =>
+          if s1.sync then
+            (match cb o (s1.frame o) with
+             | (s2, .raised x) => ({ s2 with env := s1.env, dOutcome := s1.dOutcome, handling := s1.handling }, .raised x)
+             | (s2, _) => ({ s2 with env := s1.env, dOutcome := s1.dOutcome, handling := s1.handling }, .normal))
+          else ({ s1 with slot := some o }, .normal)
       | (s1, .ok _) => (s1, .raised (.pyErr .attributeError))             -- `x.add_done_callback` on a non-future
   | .ret none, s => (s, .returned .none)
   | .ret (some e), s =>
@@ -278,15 +291,15 @@ def exec : Stmt → S → S × Ctl
   | .ite c t f, s =>
       match evalE c s with
       | (s1, .error x) => (s1, .raised x)
-      | (s1, .ok v) => if truthy v then exec t s1 else exec f s1
+      | (s1, .ok v) => if truthy v then exec cb t s1 else exec cb f s1
   | .tryExc body asVar handler, s =>
-      match exec body s with
+      match exec cb body s with
       | (s1, .raised x) =>
           let s2 := match asVar with
             | some i => s1.set i x
             | none => s1
           let outer := s2.handling
-          (match exec handler { s2 with handling := some x } with
+          (match exec cb handler { s2 with handling := some x } with
            | (s3, c) => ({ s3 with handling := outer }, c))
       | r => r
   | .raiseTypeError, s => (s, .raised (.pyErr .typeError))
@@ -294,25 +307,30 @@ def exec : Stmt → S → S × Ctl
       match evalE arg s with
       | (s1, .error x) => (s1, .raised x)
       | (s1, .ok v) =>
-          (match exec body (s1.set p v) with
+          (match exec cb body (s1.set p v) with
            | (s2, .raised x) => (s2, .raised x)
            | (s2, .returned r) => ((match dst with | some d => s2.set d r | none => s2), .normal)
            | (s2, .normal) => ((match dst with | some d => s2.set d .none | none => s2), .normal))
 
-/-- the state in which `_delegate_resolved(delegate)` starts: parameter 0 = self, 1 = delegate -/
-def start (mapFn : FnSlot) (errFn : Option (Exc → FnRes)) (d : Outcome) : S :=
-  ({ dOutcome := d, mapFn := mapFn, errFn := errFn } : S).set 0 .self |>.set 1 .deleg
+/-- the state in which the first `_delegate_resolved(delegate)` starts -/
+def start (mapFn : FnSlot) (errFn : Option (Exc → FnRes)) (sync : Bool) (d : Outcome) : S :=
+  ({ dOutcome := d, mapFn := mapFn, errFn := errFn, sync := sync } : S).frame d
 
-/-- One call of `_delegate_resolved`; if it left `self` pending with a future in the slot, the done-callback registered by
-`_set_delegate` calls it once more when that future has finished (its outcome is then the `delegate`'s).
-Returns the final state and whether an exception escaped from either call. -/
-def run (prog : Stmt) (mapFn : FnSlot) (errFn : Option (Exc → FnRes)) (d : Outcome) : S × Bool :=
-  match exec prog (start mapFn errFn d) with
+/-- the call made for the future a user function returned (flat_map's second stage): it never registers a third future -/
+def stage2 (prog : Stmt) (s : S) : S × Ctl :=
+  exec (fun _ s' => (s', .raised (.pyErr .attributeError))) prog s
+
+/-- One call of `_delegate_resolved`.  A future returned by the user function is either already done - then the second call
+happens inside the first one's `_set_delegate` (`sync`) - or finishes later: then the done-callback registered by `_set_delegate`
+makes the second call once it has (its outcome is then the `delegate`'s).  Returns the final state and whether an exception
+escaped from either call. -/
+def run (prog : Stmt) (mapFn : FnSlot) (errFn : Option (Exc → FnRes)) (sync : Bool) (d : Outcome) : S × Bool :=
+  match exec (fun _ s' => stage2 prog s') prog (start mapFn errFn sync d) with
   | (s1, c1) =>
       let esc1 := match c1 with | .raised _ => true | _ => false
       match s1.out, s1.slot with
       | none, some o =>
-          (match exec prog ((({ s1 with dOutcome := o, slot := none, handling := none } : S).set 0 .self).set 1 .deleg) with
+          (match stage2 prog (s1.frame o) with
            | (s2, c2) => (s2, esc1 || (match c2 with | .raised _ => true | _ => false)))
       | _, _ => (s1, esc1)
 
